@@ -472,6 +472,7 @@ class Engine:
         self.cur = None  # current contract
         self.canaries = 0
         self.inv_of = {}  # ghost: base of a sorting permutation -> its inverse permutation (Arr)
+        self.filter_of = {}  # ghost: base of a mask-filtered array -> (source base, index map, position map)
         self.S.eng = self
 
     # -- fresh symbols --------------------------------------------------------------
@@ -778,6 +779,8 @@ class Engine:
             return z3.BoolVal(False)
         if isinstance(a, Arr) and b is PNONE or isinstance(b, Arr) and a is PNONE:
             return z3.BoolVal(False)
+        if isinstance(a, (tuple, list, dict)) and b is PNONE or isinstance(b, (tuple, list, dict)) and a is PNONE:
+            return z3.BoolVal(False)
         return self.to_v(a) == self.to_v(b)
 
     def contains(self, container, item, st):
@@ -845,7 +848,9 @@ class Engine:
             raise Unsupported("mod on reals")
         if isinstance(op, ast.Div):
             self.oblige("safety", "division by zero", st, y != 0, node)
-            return z3.ToReal(x) / z3.ToReal(y) if z3.is_int(x) or z3.is_int(y) else x / y
+            rx = z3.ToReal(x) if z3.is_int(x) else x
+            ry = z3.ToReal(y) if z3.is_int(y) else y
+            return rx / ry
         raise Unsupported(f"binary op {type(op).__name__}")
 
     def ev_Attribute(self, e, st, fr, k):
@@ -940,6 +945,8 @@ class Engine:
         raise Unsupported(f"slice of {type(base).__name__}")
 
     def index(self, base, idx, st, fr, k, node):
+        if isinstance(base, Arr) and isinstance(idx, (Vec,)) and base.field is None:
+            return self.mask_index(base, idx, st, k, node)
         if isinstance(base, Arr):
             if isinstance(idx, str):
                 if base.field is not None:
@@ -1013,6 +1020,40 @@ class Engine:
             f = z3.Function("getitem", V, V, V)
             return k(Opq(f(base.t, self.to_v(idx))), st)
         raise Unsupported(f"index into {type(base).__name__}")
+
+    def mask_index(self, base, mask, st, k, node):
+        """x[mask]: trusted model of numpy boolean-mask indexing - a new array holding exactly the rows whose
+        mask entry is true, in order.  The result aliases the field arrays of x through a ghost index map."""
+        from .library import new_int_array
+        self.assumptions.add("library model: boolean-mask indexing x[mask] returns exactly the rows with a true mask, in order")
+        self.oblige("safety", "mask has the length of the array", st, mask.n == base.n, node)
+        src = self.heap[base.base] if False else st.heap[base.base]
+        rbase = self.new_base("filtered")
+        m = self.fresh_len(rbase)
+        idx, st = new_int_array(self, st, "fidx", m)
+        pos, st = new_int_array(self, st, "fpos", base.n)
+        cell = {"#sorts": dict(src.get("#sorts", {}))}
+        st = St(st.env, {**st.heap, rbase: cell}, st.pc, st.ghost)
+        res = Arr(rbase, None, z3.IntVal(0), m)
+        iv, pv = ArrV(self, idx, st.heap), ArrV(self, pos, st.heap)
+        S = self.S
+        lo = base.lo
+        tr = lambda i: self.truth(mask.fn(i))
+        st = st.assume(z3.And(m >= 0, m <= base.n))
+        st = st.assume(S.forall(0, m, lambda j: z3.And(0 <= iv.at(j), iv.at(j) < base.n, tr(iv.at(j)))))
+        st = st.assume(S.forall2(0, m, 0, m, lambda i, j: z3.Implies(i < j, iv.at(i) < iv.at(j))))
+        st = st.assume(S.forall(0, base.n, lambda i: z3.Implies(tr(i), z3.And(0 <= pv.at(i), pv.at(i) < m, iv.at(pv.at(i)) == i))))
+        # contents: every declared field of the result row j equals that of source row idx[j]
+        for f, fs in cell["#sorts"].items():
+            if fs.endswith("2"):
+                continue
+            a_src = self.heap_field(st.heap, base.base, f)
+            a_res = self.heap_field(st.heap, rbase, f)
+            st = st.assume(S.forall(0, m, lambda j: z3.Select(a_res, j) == z3.Select(a_src, lo + iv.at(j))))
+        self.filter_of[rbase] = (base.base, idx, pos)
+        dt = z3.Function("dtype_of", V, V)
+        st = st.assume(dt(z3.Const("arr:" + rbase, V)) == dt(z3.Const("arr:" + base.base, V)))
+        return k(res, st)
 
     def dict_value(self, cell, key):
         vs = cell.get("#vsort", "V")
